@@ -317,6 +317,11 @@ func w3ParsePart(b []byte, in *w3Init, moof, mdat w3Box) (w3Part, error) {
 // first byte; audio: the first four bytes.
 func w3SampleID(pl []byte, video bool) int64 {
 	if !video {
+		// an MPEG audio frame: the id follows the four bytes of its header (ids stay
+		// below 2^24, an LPCM payload never starts with the sync word)
+		if len(pl) >= 8 && pl[0] == 0xff && pl[1]&0xe0 == 0xe0 {
+			return int64(binary.BigEndian.Uint32(pl[4:]))
+		}
 		if len(pl) >= 4 {
 			return int64(binary.BigEndian.Uint32(pl))
 		}
